@@ -66,7 +66,40 @@ def replay(fl, FA, clause, hedge, vals, other=None):
                     r = replay(fl, FA, "inverse", f, {"x": u}, other=g)
                     if r.get("failed"):
                         return r
-        return replay(fl, FA, "elementwise", hedge, {"x": 0.3, "x2": 0.6})
+        r = replay(fl, FA, "elementwise", hedge, {"x": 0.3, "x2": 0.6})
+        if r.get("failed"):
+            return r
+        return replay(fl, FA, "sampled", hedge, vals)
+    if clause == "sampled":
+        # exact dyadic grid points k/2**20 and random doubles: the formula to within 2 ulp (each hedge is one or two correctly rounded operations;
+        # `1 - x` is exact on the grid), not(not(x)) == x exactly on the grid; arrays of any shape (0-d, 1-D, 2-D) element by element with the
+        # same shape; and a second call after the first result was modified in place (the result depends on x only)
+        import random
+        rng = random.Random(int(vals.get("seed", 0)) if isinstance(vals, dict) else 0)
+        n = int(vals.get("n", 400)) if isinstance(vals, dict) else 400
+        pts = [rng.randrange(0, 2 ** 20 + 1) / 2.0 ** 20 for _ in range(n)] + [rng.random() for _ in range(n)] + [0.5, np.nextafter(0.5, 0), np.nextafter(0.5, 1), 1.0 / 3.0, 2.0 ** -20, 1e-16, 1 - 2.0 ** -53]
+        ulp2 = lambda a, b: abs(a - b) <= 2 * np.spacing(max(abs(a), abs(b), 5e-324))
+        for u in pts:
+            u = np.float64(u)
+            exp, obs = np.float64(HEDGES[hedge](FA, u)), H(u)
+            if not ulp2(exp, obs):
+                return {"failed": True, "expected": float(exp), "observed": float(obs), "call": f"{hedge}().hedge({float(u)!r}) (documented formula, to 2 ulp)"}
+            if hedge == "Not" and float(u) * 2 ** 20 == int(float(u) * 2 ** 20) and H(H(u)) != u:
+                return {"failed": True, "expected": float(u), "observed": float(H(H(u))), "call": f"not(not({float(u)!r})) on the exact dyadic grid"}
+        for arr in (np.array(0.3), np.array([0.3, 0.6, 0.0, 1.0]), np.array([[0.3, 0.6, 0.3], [0.0, 1.0, 0.25]]), np.array([[[0.5]], [[0.75]]])):
+            exp = np.array([H(v) for v in arr.ravel()]).reshape(arr.shape)
+            got = np.asarray(h.hedge(arr.copy()), dtype=float)
+            if got.shape != arr.shape or not np.allclose(got, exp, rtol=1e-15, atol=0):
+                return {"failed": True, "expected": {"shape": list(arr.shape), "values": exp.tolist()}, "observed": {"shape": list(got.shape), "values": got.tolist()},
+                        "call": f"{hedge}().hedge(array of shape {arr.shape}) against its elements one by one"}
+            first = h.hedge(arr.copy())
+            if isinstance(first, np.ndarray) and first.flags.writeable:
+                first *= 0.25          # the caller owns the result it was given
+            again = np.asarray(getattr(fl, hedge)().hedge(arr.copy()), dtype=float)
+            if again.shape != exp.shape or not np.allclose(again, exp, rtol=1e-15, atol=0):
+                return {"failed": True, "expected": exp.tolist(), "observed": again.tolist(),
+                        "call": f"{hedge}().hedge(array of shape {arr.shape}) called again after the first result was scaled in place by its caller"}
+        return {"failed": False, "cases": len(pts) + 8}
     if clause == "elementwise":
         arr = np.array([x, x2, 0.0, 0.5, 1.0, 0.25])
         keep = arr.copy()
